@@ -3429,13 +3429,24 @@ def mem_args(solver, tag, kinds, n, n2):
     return vals, cons, groups
 
 
-def run_memfs_single(ctx, prop, ops, nmax, n2max, cwds=("/", "/a"), tag="mem_single", tree=None, pfx=None):
+def run_memfs_single(ctx, prop, ops, nmax, n2max, cwds=("/", "/a"), tag="mem_single", tree=None, pfx=None, pre=None, npre=2):
+    """pre: optional list of operations one of which is executed first (with its own symbolic arguments of 1..=npre chars):
+    the obligations are those of the last call, from the state the first call leaves behind (two-call histories)"""
     t0 = time.time()
     run = MemRun(ctx, tag)
     ex, ob = run.ex, run.ob
     unit = dict(status="pass", failures=[])
     tree = tree or TREE1
-    for op in ops:
+    import itertools
+    pre_variants = [None]
+    if pre:
+        pre_variants = []
+        for pop in pre:
+            pk = MEM_OPS[pop][0]
+            ptwo = pk.count("path2") == 2
+            for pl in ([(a, b) for a in range(1, npre + 1) for b in range(1, npre + 1)] if ptwo else [(n, 0) for n in range(1, npre + 1)]):
+                pre_variants.append((pop, pl))
+    for op, prev in itertools.product(ops, pre_variants):
         base = op.split("/")[0]
         kinds, atomic = MEM_OPS[base]
         two = kinds.count("path2") == 2
@@ -3446,6 +3457,19 @@ def run_memfs_single(ctx, prop, ops, nmax, n2max, cwds=("/", "/a"), tag="mem_sin
             for (la, lb) in shapes:
                 vals, cons, groups = [], [], {}
                 tagx = "%s_%s_%s_%d_%d" % (tag, op, cwd.replace("/", "r"), la, lb)
+                pre_calls, pre_groups, pre_cons, pre_desc = [], {}, [], None
+                if prev is not None:
+                    pop, (pa_, pb_) = prev
+                    tagx += "_%s_%d_%d" % (pop, pa_, pb_)
+                    pk = MEM_OPS[pop][0]
+                    if pk.count("path2") == 2:
+                        q1, d1, h1 = mem_args(run.solver, tagx + "pa", ["path2"], pa_, pa_)
+                        q2, d2, h2 = mem_args(run.solver, tagx + "pb", ["path2"], pb_, pb_)
+                        pvals, pre_cons, pre_groups = q1 + q2, d1 + d2, {"pre_arg0": h1["arg0"], "pre_arg1": h2["arg0"]}
+                    else:
+                        pvals, pre_cons, hg = mem_args(run.solver, tagx + "p", pk, pa_, pa_)
+                        pre_groups = {"pre_" + k: v for k, v in hg.items()}
+                    pre_calls, pre_desc = [(pop, pvals)], pop
                 if two:
                     v1, c1, g1 = mem_args(run.solver, tagx + "a", ["path2"], la, la)
                     v2, c2, g2 = mem_args(run.solver, tagx + "b", ["path2"], lb, lb)
@@ -3453,11 +3477,13 @@ def run_memfs_single(ctx, prop, ops, nmax, n2max, cwds=("/", "/a"), tag="mem_sin
                     groups = {"arg0": g1["arg0"], "arg1": g2["arg0"]}
                 else:
                     vals, cons, groups = mem_args(run.solver, tagx, kinds, la, la)
-                calls, copts = [(op, vals)], None
+                cons = cons + pre_cons
+                groups = dict(groups, **pre_groups)
+                calls, copts = pre_calls + [(op, vals)], None
                 if base in ("chmod_b", "chown_b"):
                     what, rec, fol = op.split("/")[1:]
                     B_ = "Chmod" if base == "chmod_b" else "Chown"
-                    calls, copts = [(base, vals)], dict(kind=base, what=what, recursive=rec == "1", follow=fol == "1")
+                    calls, copts = pre_calls + [(base, vals)], dict(kind=base, what=what, recursive=rec == "1", follow=fol == "1")
                     nvals = {"all": 1, "dirs": 1, "files": 1, "both": 2, "ro": 0, "sec": 0, "owner": 2, "uid": 1, "gid": 1}[what]
                     syms = []
                     for k in range(nvals):
@@ -3484,7 +3510,7 @@ def run_memfs_single(ctx, prop, ops, nmax, n2max, cwds=("/", "/a"), tag="mem_sin
                     calls.append(("@@%s::exec&" % B_, [len(calls) - 1]))
                 if base == "copy_b":
                     sel, fol = op.split("/")[1:]
-                    calls, copts = [("copy_b", vals)], dict(sel=sel, follow=fol == "1", mode=None)
+                    calls, copts = pre_calls + [("copy_b", vals)], dict(sel=sel, follow=fol == "1", mode=None)
                     if sel != "none":
                         mv, mc, _ = mem_args(run.solver, tagx + "m", ["mode"], 0, 0)
                         cons = cons + mc
@@ -3495,47 +3521,52 @@ def run_memfs_single(ctx, prop, ops, nmax, n2max, cwds=("/", "/a"), tag="mem_sin
                         calls.append(("@@Copier::follow", [len(calls) - 1, B(True)]))
                     calls.append(("@@Copier::exec&", [len(calls) - 1]))
 
-                def on_done(st, results, inner, i, op=op, groups=groups, cwd=cwd, atomic=atomic, base=base, copts=copts):
+                def on_done(st, results, inner, i, op=op, groups=groups, cwd=cwd, atomic=atomic, base=base, copts=copts, npre_=len(pre_calls), pre_desc=pre_desc):
                     cf = lambda extra: text_model(ex, st, groups, extra)
+                    if npre_ and any(r[0] in ("panic", "bound") for r in results[:npre_]):
+                        return  # the first call alone is the subject of the single-call units
+                    cwd0 = cwd
+                    cwd_chars = T_(cwd) if not npre_ else list(st.meta["before"]["cwd"])
+                    cwd = cwd if not npre_ else "%s, after %s" % (cwd, pre_desc)
                     last = results[-1]
-                    for r in results:
+                    for r in results[npre_:]:
                         if r[0] in ("panic", "bound") or (r[0] == "ret" and isinstance(r[1], Adt) and r[1].ty == "Result" and r[1].variant == 1):
                             last = r  # the first step that fails decides the outcome of the whole builder chain
                             break
                     if last[0] in ("panic", "bound"):
                         ob.total += 1
-                        ob.failures.append(dict(kind="panic" if last[0] == "panic" else "bound", where="Memfs::" + op, op=op, cwd=cwd,
+                        ob.failures.append(dict(kind="panic" if last[0] == "panic" else "bound", where="Memfs::" + op, op=op, cwd=cwd0, pre=pre_desc,
                                                 cex=cf([]), desc="C12: Memfs::%s panics/loops: %s" % (op, last[1])))
                         return
                     after = snapshot_store(ex, st, inner)
                     for desc, f in store_wf(ex, st, after):
-                        ob.prove(ex, st, desc + " (after %s, cwd %s)" % (op, cwd), f, cf) or ob.failures[-1].update(op=op, cwd=cwd, where="Memfs::" + op)
+                        ob.prove(ex, st, desc + " (after %s, cwd %s)" % (op, cwd), f, cf) or ob.failures[-1].update(op=op, cwd=cwd0, pre=pre_desc, where="Memfs::" + op)
                     rv = last[1]
                     failed = isinstance(rv, Adt) and rv.ty == "Result" and rv.variant == 1
                     rop = "copy" if base == "copy_b" else base[:-2] if base in ("chmod_b", "chown_b") else op
                     if rop in REF_OPS:
                         # C01, first sentence, for one call: result and resulting tree equal the reference filesystem
                         op = rop if base not in ("copy_b", "chmod_b", "chown_b") else op
-                        pa = abs_oracle(ex, st, groups["arg0"], T_(cwd), run.tenv)
+                        pa = abs_oracle(ex, st, groups["arg0"], cwd_chars, run.tenv)
                         pb = None
                         if rop in ("symlink", "move_p", "copy") and pa[0] == "ok":
                             a1 = groups["arg1"]
                             if op == "symlink" and not ex.decide(st, TP.is_ch(a1[0], TP.SLASH)):
                                 a1 = list(TP.parent_text(ex, st, pa[1]) or T_("/")) + T_("/") + list(a1)
-                            pb = abs_oracle(ex, st, a1, T_(cwd), run.tenv)
+                            pb = abs_oracle(ex, st, a1, cwd_chars, run.tenv)
                         if pb is not None and pb[0] != "ok":
                             if pb[0] == "err":
                                 ob.prove(ex, st, "C01: %s with a second path that does not resolve (%s) fails (cwd %s)" % (op, pb[1], cwd), B(failed), cf) or \
-                                    ob.failures[-1].update(op=op, cwd=cwd, where="Memfs::" + op)
+                                    ob.failures[-1].update(op=op, cwd=cwd0, pre=pre_desc, where="Memfs::" + op)
                         elif pa[0] == "err":
                             ob.prove(ex, st, "C01: %s on a path that does not resolve (%s) fails (cwd %s)" % (op, pa[1], cwd), B(failed), cf) or \
-                                ob.failures[-1].update(op=op, cwd=cwd, where="Memfs::" + op)
+                                ob.failures[-1].update(op=op, cwd=cwd0, pre=pre_desc, where="Memfs::" + op)
                         elif pa[0] == "ok":
                             ref = ref_from_snapshot(ex, st, st.meta["before"])
                             out, rpath = ref_apply(ex, st, ref, rop, [pa[1]] + ([pb[1]] if pb else []), groups.get("data1"), copts)
                             if out != "skip":
                                 ob.prove(ex, st, "C01: %s succeeds/fails as the reference filesystem does (cwd %s)" % (op, cwd),
-                                         B(failed == (out == "err")), cf) or ob.failures[-1].update(op=op, cwd=cwd, where="Memfs::" + op)
+                                         B(failed == (out == "err")), cf) or ob.failures[-1].update(op=op, cwd=cwd0, pre=pre_desc, where="Memfs::" + op)
                                 if out == "ok" and not failed:
                                     def cf_ref(extra, ref=ref):
                                         g2 = dict(groups)
@@ -3574,20 +3605,20 @@ def run_memfs_single(ctx, prop, ops, nmax, n2max, cwds=("/", "/a"), tag="mem_sin
                                         from .mirsym.values import bv_bin as _bvb
                                         zero = _bvb("Eq", copts["mode"], BV(32, False, 0))
                                         ob.prove(ex, st, "C01: the tree after %s equals the reference filesystem's (cwd %s) [requested mode 0]%s" % (op, cwd, label),
-                                                 b_or(b_not(zero), formula), cf_ref) or ob.failures[-1].update(op=op, cwd=cwd, where="Memfs::" + op)
+                                                 b_or(b_not(zero), formula), cf_ref) or ob.failures[-1].update(op=op, cwd=cwd0, pre=pre_desc, where="Memfs::" + op)
                                         formula = b_or(zero, formula)
                                     ob.prove(ex, st, "C01: the tree after %s equals the reference filesystem's (cwd %s)%s" % (op, cwd, label),
-                                             formula, cf_ref) or ob.failures[-1].update(op=op, cwd=cwd, where="Memfs::" + op)
+                                             formula, cf_ref) or ob.failures[-1].update(op=op, cwd=cwd0, pre=pre_desc, where="Memfs::" + op)
                                     if rpath is not None and isinstance(rv, Adt) and rv.variant == 0 and isinstance(rv.fields[0], TP.PathBufT):
                                         ob.prove(ex, st, "C01: %s returns the absolute path it acted on (cwd %s)" % (op, cwd),
-                                                 text_eq(rv.fields[0].chars, rpath), cf) or ob.failures[-1].update(op=op, cwd=cwd, where="Memfs::" + op)
+                                                 text_eq(rv.fields[0].chars, rpath), cf) or ob.failures[-1].update(op=op, cwd=cwd0, pre=pre_desc, where="Memfs::" + op)
                     if atomic and failed:
                         ob.prove(ex, st, "C01: a failed %s leaves the tree exactly as it was (cwd %s)" % (op, cwd),
-                                 store_same(ex, st, st.meta["before"], after), cf) or ob.failures[-1].update(op=op, cwd=cwd, where="Memfs::" + op)
+                                 store_same(ex, st, st.meta["before"], after), cf) or ob.failures[-1].update(op=op, cwd=cwd0, pre=pre_desc, where="Memfs::" + op)
                     if len(ob.samples) < 5:
                         m = cf([])
                         if m:
-                            ob.samples.append(dict(op=op, cwd=cwd, args=m, failed=failed))
+                            ob.samples.append(dict(op=op, cwd=cwd0, pre=pre_desc, args=m, failed=failed))
 
                 run.explore(tree, cwd, calls, cons, on_done)
     seen = set()
@@ -3844,6 +3875,12 @@ def mem_replay_src(f):
     call = "v.%s(%s)" % (op, ", ".join(args))
     tree = f.get("tree") or TREE1
     fixture_call = "fixture()" if tree is TREE1 else "fixture4()" if tree is TREE4 else "fixture3()"
+    pre_line, pre_ref = "", ""
+    if f.get("pre"):
+        pk = MEM_OPS[f["pre"]][0]
+        pargs = [rs_str(a.get("pre_arg%d" % i, a.get("pre_data%d" % i, ""))) if k != "mode" else "0o644" for i, k in enumerate(pk)]
+        pre_line = "    let _ = v.%s(%s);\n" % (f["pre"], ", ".join(pargs))
+        pre_ref = "    let pre_known = r.apply(%s, %s, %s).is_ok();\n" % (rs_str(f["pre"]), pargs[0], pargs[1] if len(pargs) > 1 else '""')
     refcheck = ""
     if op.startswith(("chmod_b/", "chown_b/")):
         base, what, rec, fol = op.split("/")
@@ -3870,7 +3907,8 @@ def mem_replay_src(f):
 ''' % (op, rs_str(a["expect_dump"]), op)
     elif op in REF_OPS and tree is TREE1 and not any(c in a["arg0"] for c in "~$"):
         refcheck = '''    let mut r = RefFs::fixture(%s);
-    if let Ok(ok) = r.apply(%s, %s, %s) {
+    let pre_known = true;
+PRE_REF    if let (true, Ok(ok)) = (pre_known, r.apply(%s, %s, %s)) {
         assert_eq!(!failed, ok, "C01: %s succeeds/fails differently from the reference filesystem");
         if ok {
             assert_eq!(dump(&v).split("\n[cwd]").next().unwrap(), r.dump(), "C01: the tree after %s differs from the reference filesystem's");
@@ -3880,13 +3918,14 @@ def mem_replay_src(f):
         }
     }
 ''' % (rs_str(cwd), rs_str(op), rs_str(a["arg0"]), rs_str(a.get("data1", a.get("arg1", ""))), op, op)
+    refcheck = refcheck.replace("PRE_REF", pre_ref)
     return MEM_REPLAY_PRELUDE + '''
 #[test]
 fn replay_memfs_op() {
     // %s
     let v = std::sync::Arc::new(%s);
     v.set_cwd(%s).unwrap();
-    let before = dump(&v);
+%s    let before = dump(&v);
     // run the call on its own thread: a call that never returns (deadlock) must fail the replay, not hang it
     let (tx, rx) = std::sync::mpsc::channel();
     let v2 = v.clone();
@@ -3904,7 +3943,7 @@ fn replay_memfs_op() {
         assert_eq!(dump(&v), before, "C01: failed %s changed the tree");
     }
 %s}
-''' % (f["desc"], fixture_call, rs_str(cwd), call, op, "true" if MEM_OPS[op][1] else "false", op, refcheck)
+''' % (f["desc"], fixture_call, rs_str(cwd), pre_line, call, op, "true" if MEM_OPS[op][1] else "false", op, refcheck)
 
 
 MEM_FUNCS = ["Memfs::{%s} and everything they call, executed from MIR (auto-inlined rivia code): _abs, _add, _mkdir_m, _symlink, MemfsGuard::*, "
@@ -4846,7 +4885,7 @@ def ref_apply(ex, st, ref, op, paths, data, opts=None):
         if not parent_ok():
             return ("err", None)
         t = ref_find(ex, st, ref, paths[1])
-        ref["nodes"].append(dict(key=list(p), kind="l", content=None, alt=list(paths[1]), tkind=(t["kind"] if t else None),
+        ref["nodes"].append(dict(key=list(p), kind="l", content=None, alt=list(paths[1]), tkind=((t["kind"] if t["kind"] != "l" else t.get("tkind")) if t else None),
                                  mode=BV(32, False, 0o120777), uid=BV(32, False, 1000), gid=BV(32, False, 1000)))
         return ("ok", p)
     if op in ("chmod", "chown"):
@@ -5761,3 +5800,267 @@ def replay_selftest(ctx, prop):
     if bad:
         unit["why"] = "replay generator self-test: " + "; ".join(bad)
     return unit
+
+
+
+# ------------------------------------------------------------------------------------------------
+# C20: the assert_vfs_* macros as test oracles (expanded inside the crate by kani/verif_macros.rs, Memfs backend)
+# ------------------------------------------------------------------------------------------------
+C20_CHECKING = ["exists", "no_exists", "is_dir", "no_dir", "is_file", "no_file", "is_symlink", "no_symlink"]
+
+
+def _contains(ex, st, hay, needle):
+    """does the char list `hay` contain `needle` (both possibly symbolic) - decided position by position"""
+    n = len(needle)
+    for k in range(0, len(hay) - n + 1):
+        if all(ex.decide(st, chars_eq_one(a, b)) for a, b in zip(hay[k:k + n], needle)):
+            return True
+    return n == 0
+
+
+def chars_eq_one(a, b):
+    from .mirsym.values import bv_bin
+    return bv_bin("Eq", a, b)
+
+
+def run_macros(ctx, prop, macros, n, tag, cwds=("/", "/a")):
+    from .mirsym.engine import State
+    t0 = time.time()
+    run = MemRun(ctx, tag)
+    ex, ob, solver = run.ex, run.ob, run.solver
+    unit = dict(status="pass", failures=[])
+    Q = BV(32, False, ord('"'))
+    for mac in macros:
+        fn = ex.auto.resolve("verif_macros::vm_" + mac) or ex.auto.resolve("vm_" + mac)
+        if fn is None:
+            raise Unsupported("wrapper vm_%s is not in the MIR dump" % mac)
+        two = mac in ("readlink_abs", "symlink", "copyfile")
+        withdata = mac in ("read_all", "write_all")
+        lens = [(a, b) for a in range(1, n + 1) for b in range(1, n + 1)] if two else [(a, 0) for a in range(1, n + 1)]
+        extra_variants = [None]
+        if mac == "readlink":
+            extra_variants = ["../b", "/b", "b", "../a", "a"]
+        for cwd in cwds:
+            for (la, lb) in lens:
+                for xv in extra_variants:
+                    tagx = "%s_%s_%s_%d_%d_%s" % (tag, mac, cwd.replace("/", "r"), la, lb, (xv or "").replace("/", "s").replace(".", "d"))
+                    v1, cons, g1 = mem_args(solver, tagx + "a", ["path2"], la, la)
+                    args, groups = [v1[0]], {"arg0": g1["arg0"]}
+                    second = None
+                    if two:
+                        v2, c2, g2 = mem_args(solver, tagx + "b", ["path2"], lb, lb)
+                        cons, second = cons + c2, g2["arg0"]
+                        args.append(v2[0])
+                        groups["arg1"] = second
+                    if xv is not None:
+                        second = T_(xv)
+                        args.append(BoxRef(M.SStr(list(second))))
+                        groups["arg1"] = second
+                    if withdata:
+                        d, dc = sym_text(solver, tagx + "d", 1, ascii_only=True)
+                        cons = cons + dc + ["(bvuge %s #x00000061)" % d[0].v, "(bvule %s #x0000007a)" % d[0].v]
+                        args.append(M.SStr(list(d)) if mac == "read_all" else BoxRef(M.SStr(list(d))))
+                        groups["data"] = d
+                    memfs, inner = mk_memfs(TREE3, cwd)
+
+                    def on_path(st, mac=mac, cwd=cwd, groups=groups, second=second, memfs=memfs, inner=inner, args=args, fn=fn):
+                        if st.meta.get("i", -1) < 0:
+                            st2 = ex.start(fn, [BoxRef(st.meta["memfs"])] + list(args))
+                            st2.pc, st2.meta = list(st.pc), dict(st.meta, i=0, before=snapshot_store(ex, st, st.meta["inner"]))
+                            return [st2]
+                        inner = st.meta["inner"]  # the store of *this* path (states are copied at forks)
+                        cf = lambda extra: text_model(ex, st, groups, extra)
+                        meta = dict(mac=mac, cwd=cwd, where="assert_vfs_%s!" % mac)
+                        if st.bound_hit:
+                            ob.total += 1
+                            ob.failures.append(dict(kind="bound", cex=cf([]), desc="C20: bound hit in assert_vfs_%s!: %s" % (mac, st.bound_hit), **meta))
+                            return
+                        panicked = bool(st.panic)
+                        msg = getattr(ex, "last_panic_fmt", None) if panicked and str(st.panic).startswith("panic_fmt") else None
+                        if panicked and msg is None:
+                            ob.total += 1
+                            ob.failures.append(dict(kind="panic", cex=cf([]), desc="C12: assert_vfs_%s! panics outside its message protocol: %s" % (mac, st.panic), **meta))
+                            return
+                        before, after = st.meta["before"], snapshot_store(ex, st, inner)
+                        ref = ref_from_snapshot(ex, st, before)
+                        pa = abs_oracle(ex, st, groups["arg0"], T_(cwd), run.tenv)
+                        name_ok = lambda: _contains(ex, st, msg.chars, T_("assert_vfs_%s!" % mac))
+                        path_ok = lambda t: _contains(ex, st, msg.chars, [Q] + list(t) + [Q])
+                        P = lambda d, f, c=cf: ob.prove(ex, st, d, f, c) or ob.failures[-1].update(**meta)
+                        if pa[0] == "skip":
+                            return
+                        if pa[0] == "err":
+                            P("C20: assert_vfs_%s! panics when the path does not resolve (cwd %s)" % (mac, cwd), B(panicked))
+                            if panicked:
+                                P("C20: the panic message names the macro and the path given (unresolvable path, cwd %s)" % cwd, B(name_ok() and path_ok(groups["arg0"])))
+                            return
+                        target = pa[1]
+                        node = ref_find(ex, st, ref, target)
+                        kind = node["kind"] if node else None
+                        expect, same_tree, ref_after = None, True, None  # expect: True = must pass, False = must panic
+                        if mac in C20_CHECKING:
+                            expect = {"exists": kind is not None, "no_exists": kind is None, "is_dir": kind == "d", "no_dir": kind != "d", "is_file": kind == "f",
+                                      "no_file": kind != "f", "is_symlink": kind == "l", "no_symlink": kind != "l"}[mac]
+                        elif mac == "read_all":
+                            expect = kind == "f" and len(node["content"]) == 1 and ex.decide(st, __import__("lib.mirsym.values", fromlist=["bv_bin"]).bv_bin(
+                                "Eq", BV(32, False, "((_ zero_extend 24) %s)" % node["content"][0].smt()) if not node["content"][0].concrete else BV(32, False, node["content"][0].v),
+                                groups["data"][0]))
+                        elif mac == "readlink":
+                            expect = kind == "l" and ex.decide(st, text_eq(list(second), T_("../b")))  # the only link of the fixture: /a/a -> /b
+                        elif mac == "readlink_abs":
+                            pb = abs_oracle(ex, st, second, T_(cwd), run.tenv)
+                            if pb[0] != "ok":
+                                if pb[0] == "err":
+                                    P("C20: assert_vfs_readlink_abs! panics when the expected target does not resolve (cwd %s)" % cwd, B(panicked))
+                                return
+                            expect = kind == "l" and ex.decide(st, TP.path_eq_text(ex, st, node["alt"], pb[1]))
+                        else:
+                            # acting macros: perform the operation (reference) and check the postcondition
+                            same_tree = False
+                            r2 = ref_from_snapshot(ex, st, before)
+                            if mac in ("mkdir_p", "remove", "remove_all"):
+                                if mac == "remove" and node is None:
+                                    expect, ref_after = True, r2
+                                else:
+                                    out, _ = ref_apply(ex, st, r2, mac, [target], None)
+                                    if out == "skip":
+                                        return
+                                    expect, ref_after = out == "ok", r2 if out == "ok" else None
+                            elif mac == "mkfile":
+                                if node is not None:
+                                    expect, ref_after = kind == "f", r2
+                                else:
+                                    out, _ = ref_apply(ex, st, r2, "mkfile", [target], None)
+                                    expect, ref_after = out == "ok", r2 if out == "ok" else None
+                            elif mac == "write_all":
+                                out, _ = ref_apply(ex, st, r2, "write_all", [target], groups["data"])
+                                if out == "skip":
+                                    return
+                                expect, ref_after = out == "ok", r2 if out == "ok" else None
+                            elif mac == "symlink":
+                                a1 = second if ex.decide(st, TP.is_ch(second[0], TP.SLASH)) else list(TP.parent_text(ex, st, target) or T_("/")) + T_("/") + list(second)
+                                pb = abs_oracle(ex, st, a1, T_(cwd), run.tenv)
+                                if pb[0] != "ok":
+                                    return
+                                if node is not None:
+                                    expect, ref_after = kind == "l", r2  # documented: "If the symlink exists no change is made"
+                                else:
+                                    out, _ = ref_apply(ex, st, r2, "symlink", [target, pb[1]], None)
+                                    if out == "skip":
+                                        return
+                                    expect, ref_after = out == "ok", r2 if out == "ok" else None
+                            elif mac == "copyfile":
+                                pb = abs_oracle(ex, st, second, T_(cwd), run.tenv)
+                                if pb[0] != "ok":
+                                    if pb[0] == "err":
+                                        P("C20: assert_vfs_copyfile! panics when the destination does not resolve (cwd %s)" % cwd, B(panicked))
+                                    return
+                                if kind != "f":
+                                    expect, ref_after = False, None
+                                else:
+                                    out, _ = ref_apply(ex, st, r2, "copy", [target, pb[1]], None)
+                                    if out == "skip":
+                                        return
+                                    dstn = ref_find(ex, st, r2, pb[1]) if out == "ok" else None
+                                    expect, ref_after = out == "ok" and dstn is not None and dstn["kind"] == "f", r2 if out == "ok" else None
+                        what = "predicate" if mac in C20_CHECKING or mac.startswith("read") else "operation and postcondition"
+                        P("C20: assert_vfs_%s! passes exactly when its %s holds (cwd %s): expected %s" % (mac, what, cwd, "pass" if expect else "panic"), B(panicked != bool(expect)))
+                        if panicked:
+                            P("C20: the panic message of assert_vfs_%s! names the macro (cwd %s)" % (mac, cwd), B(name_ok()))
+                            if mac in C20_CHECKING and panicked != bool(expect) is False:
+                                pass
+                            if mac in C20_CHECKING:
+                                P("C20: the panic message of assert_vfs_%s! names the path (cwd %s)" % (mac, cwd), B(path_ok(target)))
+                        if same_tree:
+                            P("C20: the checking macro assert_vfs_%s! does not change the filesystem (cwd %s)" % (mac, cwd), store_same(ex, st, before, after))
+                        elif not panicked and ref_after is not None:
+                            P("C20: assert_vfs_%s! performed the operation: the tree equals the reference filesystem's (cwd %s)" % (mac, cwd), ref_matches(ex, st, ref_after, after))
+                        if len(ob.samples) < 6:
+                            ob.samples.append(dict(macro=mac, cwd=cwd, args=cf([]), panicked=panicked))
+
+                    st0 = State()
+                    st0.done = True
+                    st0.meta = dict(i=-1, memfs=memfs, inner=inner)
+                    st0.pc = list(cons)
+                    ex.explore(st0, on_path)
+    seen = set()
+    for f in ob.failures:
+        if f["kind"] == "bound" or not f.get("cex"):
+            unit["status"], unit["why"] = "inconclusive", f["desc"]
+            continue
+        key = (f["mac"], re.sub(r" \(cwd .*?\)", "", f["desc"]))
+        if key in seen or len(seen) >= 8:
+            continue
+        seen.add(key)
+        src = c20_replay_src(f)
+        r = native_test(src, ctx.logdir, "%s_%d" % (tag, len(seen)))
+        reproduced = r["ran"] and r["failed"] > 0
+        rec = dict(kind=f["kind"], desc='"%s" args=%r' % (f["desc"], f["cex"]), where=f["where"], reproduced=reproduced, replay_outcome=r["out"][-500:])
+        if reproduced:
+            rec["replay"] = save_replay(prop, tag, src, f["desc"], dict(failed=r["failed"]))
+        unit["failures"].append(rec)
+        unit["status"] = "violation"
+    return finish(unit, ex, solver, ob, t0, dict(models_used="macro expansions executed from MIR (wrappers kani/verif_macros.rs injected into the scratch copy); panic!/format! through their compiled templates"))
+
+
+def c20_replay_src(f):
+    mac, a, cwd = f["mac"], f["cex"], f["cwd"]
+    want_pass = "expected pass" in f["desc"]
+    args = [rs_str(a["arg0"])]
+    if "arg1" in a:
+        args.append(rs_str(a["arg1"]))
+    if "data" in a:
+        args.append(rs_str(a["data"]))
+    call = "assert_vfs_%s!(v, %s);" % (mac, ", ".join(args))
+    if "passes exactly" in f["desc"]:
+        check = ('assert!(r.is_ok(), "C20: assert_vfs_%s! fails on a state that satisfies it: {:?}", msg);' % mac) if want_pass else \
+                ('assert!(r.is_err(), "C20: assert_vfs_%s! passes although its predicate / postcondition does not hold");' % mac)
+    elif "names the macro" in f["desc"]:
+        check = 'assert!(r.is_ok() || msg.contains("assert_vfs_%s!"), "C20: the panic message does not name the macro: {:?}", msg);' % mac
+    elif "names the path" in f["desc"]:
+        check = 'assert!(r.is_ok() || msg.contains(&format!("{:?}", v.abs(%s).map(|p| p.to_str().unwrap().to_string()).unwrap_or(%s.to_string()))), "C20: the panic message does not name the path: {:?}", msg);' % (args[0], args[0])
+    elif "performed the operation" in f["desc"]:
+        check = 'assert!(r.is_err() || dump(&v).split("\\n[cwd]").next().unwrap() != before.split("\\n[cwd]").next().unwrap() || %s, "C20: assert_vfs_%s! passed without performing the operation");' % (
+            "false", mac)
+        if mac == "write_all":
+            check = 'assert!(r.is_err() || v.read_all(%s).ok() == Some(%s.to_string()), "C20: assert_vfs_write_all! passed but the file does not hold the data");' % (args[0], args[-1])
+        if mac == "symlink":
+            check = 'assert!(r.is_err() || v.readlink_abs(%s).ok() == v.abs(if std::path::Path::new(%s).is_absolute() { std::path::PathBuf::from(%s) } else { v.abs(%s).unwrap().parent().unwrap().join(%s) }).ok(), "C20: assert_vfs_symlink! passed but the link does not point to the target");' % (
+                args[0], args[1], args[1], args[0], args[1])
+    else:
+        check = 'assert!(r.is_ok() || true);'
+    return MEM_REPLAY_PRELUDE + '''
+#[test]
+fn replay_macro() {
+    // %s
+    let v = fixture3();
+    v.set_cwd(%s).unwrap();
+    let before = dump(&v);
+    let _ = &before;
+    let prev = std::panic::take_hook();
+    std::panic::set_hook(Box::new(|_| {}));
+    let r = std::panic::catch_unwind(std::panic::AssertUnwindSafe(|| { %s }));
+    std::panic::set_hook(prev);
+    let msg = match &r { Err(e) => e.downcast_ref::<String>().cloned().or(e.downcast_ref::<&str>().map(|s| s.to_string())).unwrap_or_default(), Ok(_) => String::new() };
+    if let Err(e) = well_formed(&v) { panic!("C03: tree not well formed after the macro: {}", e); }
+    %s
+}
+''' % (f["desc"], rs_str(cwd), call, check)
+
+
+
+def _mk_c20(name, macros, tier, n=2):
+    @job(name, ["C20", "C12"], tier, functions=["expansions of assert_vfs_{%s}! (wrappers kani/verif_macros.rs injected into the scratch copy before the MIR dump), panic_msg!, "
+                                                "and the Memfs methods they call (real MIR)" % ",".join(macros)],
+         bounds="Memfs only; state {/, /a (dir), /a/a -> /b (link), /a/b (file 'x'), /b (file 'yz')} with cwd '/' and '/a'; every path argument of 1..=%d chars over {'/','a','b','.'}; "
+                "data one symbolic lower-case letter; readlink targets from {'../b','/b','b','../a','a'}" % n)
+    def f(ctx, prop):
+        return run_macros(ctx, prop, macros, n, name)
+    return f
+
+
+_mk_c20("c20_checking", C20_CHECKING, "quick")
+_mk_c20("c20_reading", ["read_all", "readlink", "readlink_abs"], "quick")
+_mk_c20("c20_acting_a", ["mkdir_p", "mkfile", "write_all", "remove", "remove_all"], "quick")
+_mk_c20("c20_acting_b", ["symlink", "copyfile"], "quick")
+_mk_c20("c20_checking3", C20_CHECKING + ["read_all", "mkfile", "remove"], "thorough", 3)
